@@ -393,7 +393,7 @@ func (cl *cluster) savepointRestart(o op, tags map[string]bool, tableIDs map[str
 		js2.counter = ckpt.Id
 		cl.js = js2
 		cl.ckptID = ckpt.Id
-		term, j, nt, err = cl.restartFrom(ckpt, o.N, tags, tableIDs, nkeys, false)
+		term, j, nt, err = cl.restartFrom(ckpt, o.N, tags, tableIDs, nkeys, false, "SRescale")
 		if err != nil {
 			restored, loadErr = false, err.Error()
 		}
